@@ -42,6 +42,8 @@ type evidence struct {
 	Problems     []string
 	NativeBuildS float64
 	RaceNative   []string
+	CrossChecked  int
+	CrossDisagree int
 	wall         float64
 	ps           *propSpec
 }
@@ -143,6 +145,7 @@ func (e *evidence) toJSON() map[string]any {
 		"native_build_s":     e.NativeBuildS,
 		"problems":           e.Problems,
 		"races_native":       e.RaceNative,
+		"cross_solver":       map[string]any{"solvers": "z3 4.8.12 vs z3 5.1.0 (z3-new)", "harness_instances_checked": e.CrossChecked, "disagreements": e.CrossDisagree},
 		"encoding":           "regenerated from /repo's working tree on this run (go/packages + go/ssa with the harness overlay; nothing cached)",
 	}
 	if e.ps != nil && e.ps.Bounds != "" {
